@@ -479,18 +479,30 @@ func rhsElemType(v *Val) reflect.Type {
 	return tIface
 }
 
-// planApp models `T += V` (dst == T) and `W = T + V` (dst == W).
-func planApp(t target, dst target, st *Step) outcome {
+// planApp models `T += V` (dst == T) and `W = T + V` (dst == W). The right operand is the
+// literal st.V or, when rhs != nil, the current value of another slice variable (Go:
+// append(left, right...) copies the elements, the result never aliases the right operand).
+func planApp(t target, dst target, st *Step, rhs *target) outcome {
 	switch t.cls {
 	case "slice":
 		et := t.v.Type().Elem()
 		var elems []reflect.Value
 		cs := cOK
 		known := ""
-		if st.V.sliceLike() {
+		if rhs != nil && rhs.cls != "slice" {
+			return outcome{skip: "plus_with_non_slice_variable"}
+		}
+		if rhs != nil || st.V.sliceLike() {
 			// a slice operand is concatenated element by element
-			xv := reflect.ValueOf(st.V.goValue())
-			if st.V.K != "l" && !typeConvertible(xv.Type().Elem(), et) {
+			var xv reflect.Value
+			var rt reflect.Type
+			if rhs != nil {
+				xv, rt = rhs.v, rhs.v.Type().Elem()
+			} else {
+				xv = reflect.ValueOf(st.V.goValue())
+				rt = rhsElemType(st.V)
+			}
+			if rt != tIface && !typeConvertible(rt, et) {
 				// typed operand whose element type has no conversion to the element type
 				if xv.Len() == 0 {
 					return outcome{skip: "empty_ill_typed_slice_operand"}
@@ -500,7 +512,7 @@ func planApp(t target, dst target, st *Step) outcome {
 			// shape of a fixed defect: with operands of different element types anko used to append
 			// one element at a time, so elements that still fit were written into the shared array
 			// before a later element forced a reallocation or failed to convert
-			perElem := rhsElemType(st.V) != et
+			perElem := rt != et
 			spare := t.v.Cap() - t.v.Len()
 			for i := 0; i < xv.Len(); i++ {
 				ev, es := conv(xv.Index(i).Interface(), et)
@@ -544,11 +556,14 @@ func planApp(t target, dst target, st *Step) outcome {
 		if len(elems) == 0 {
 			note = "append:nothing"
 		}
+		if rhs != nil {
+			note += "_variable_operand"
+		}
 		return outcome{mayErr: cs == cEither, mutates: true, dest: &d, known: known, note: note, apply: func(obsCap func() int) {
 			dst.v.Set(appendMirror(t.v, elems, obsCap()))
 		}}
 	case "str":
-		if st.V.K != "s" {
+		if rhs != nil || st.V == nil || st.V.K != "s" {
 			return outcome{skip: "string_plus_nonstring"}
 		}
 		return outcome{mutates: true, apply: func(func() int) { dst.v.SetString(t.v.String() + st.V.S) }}
@@ -770,7 +785,7 @@ func planMwrite(t target, st *Step) outcome {
 
 // planCall models f(T, ...) where the script function applies one operation to its
 // parameter: the parameter is a copy of the slice header / the same map.
-func planCall(t target, st *Step) outcome {
+func planCall(t target, st *Step, rhs *target) outcome {
 	if t.cls != "slice" && t.cls != "map" {
 		return outcome{skip: "call_on_non_reference_kind"}
 	}
@@ -785,7 +800,7 @@ func planCall(t target, st *Step) outcome {
 		if t.cls != "slice" {
 			return outcome{skip: "plus_on_non_sequence"}
 		}
-		o = planApp(local, local, st)
+		o = planApp(local, local, st, rhs)
 	case "del":
 		o = planDel(local, st)
 	default:
